@@ -6,7 +6,7 @@ from . import common, fragrun
 
 LEVEL = "exploration"
 RULE = ("generated functions `m(x: T) = match x: arms` with T in Int, Nat, Bool, Str, literal enums and closed intervals, and arms drawn "
-        "from literals, type arms (_: Int/Nat/Str/Bool), interval arms (_: a..b) and the wildcard, each arm returning a unique marker; "
+        "from literals, type arms (_: Int/Nat/Str/Bool), interval arms (_: a..b, a<..b, a..<b, a<..<b) and the wildcard, each arm returning a unique marker; "
         "if `erg` accepts the program it is run on every value of a sampled domain of T (small ints, boundaries, enum members, a few "
         "strings); emit_match_instr runs the last arm unconditionally, so 'no arm matched' shows up as an arm running on a value its "
         "pattern excludes: a 20-line reference matcher (literal equality, class membership by the numeric tower, interval membership) "
@@ -85,7 +85,8 @@ def gen_arms(rng, T):
             arms.append(("lit", v))
         elif k < 0.75 and not strs and not bools:
             a = rng.randint(0, 5)
-            arms.append(("interval", a, a + rng.randint(0, 4)))
+            op = rng.choice(["..", "..", "<..", "..<", "<..<"])
+            arms.append(("interval", a, a + rng.randint(0 if op == ".." else 2, 4), op))
         elif k < 0.9:
             arms.append(("type", "Str" if strs else "Bool" if bools else rng.choice(["Int", "Nat"])))
         else:
@@ -112,7 +113,10 @@ def matches(arm, v):
     if k == "lit":
         return type(arm[1]) is type(v) and arm[1] == v
     if k == "interval":
-        return isinstance(v, int) and not isinstance(v, bool) and arm[1] <= v <= arm[2]
+        op = arm[3] if len(arm) > 3 else ".."
+        lo_ok = arm[1] < v if op.startswith("<") else arm[1] <= v
+        hi_ok = v < arm[2] if op.endswith("<") else v <= arm[2]
+        return isinstance(v, int) and not isinstance(v, bool) and lo_ok and hi_ok
     if k == "type":
         t = arm[1]
         if t == "Str":
@@ -132,7 +136,7 @@ def show_arm(arm, i):
     if k == "lit":
         pat = lit(arm[1])
     elif k == "interval":
-        pat = f"(_: {arm[1]}..{arm[2]})"
+        pat = f"(_: {arm[1]}{arm[3] if len(arm) > 3 else '..'}{arm[2]})"
     elif k == "type":
         pat = f"(_: {arm[1]})"
     return f'    {pat} -> "ARM{i}"'
